@@ -27,7 +27,7 @@ func init() {
 		Cases: func(seed uint64, tier string) []Case {
 			n := 240
 			if !quick(tier) {
-				n = 12000
+				n = 4000
 			}
 			var cs []Case
 			for i := 0; i < n; i++ {
@@ -35,7 +35,7 @@ func init() {
 			}
 			nt := 80
 			if !quick(tier) {
-				nt = 3000
+				nt = 1000
 			}
 			for i := 0; i < nt; i++ {
 				cs = append(cs, Case{Kind: "tree", Seed: h.Mix(seed, 0xC02A, uint64(i))})
